@@ -65,7 +65,7 @@ theorem feed_inv {s : S} (hi : Inv s) (d : Bytes) : Inv (feed s d).1 := by
   have htp := hi.tp
   have hbd := hi.bounded
   cases s with
-  | mk bufs off size cursor total splits eof exc low high lowChunks highChunks waiter parked fut connected
+  | mk bufs off size cursor total splits eof exc low high lowChunks highChunks recheck waiter parked fut connected
        paused tpaused evs fed taken bounds delivered lost =>
   simp only at heof hfp htp hbd
   cases eof
@@ -160,7 +160,7 @@ theorem endChunk_inv {s : S} (hi : Inv s) : Inv (endChunk s).1 := by
       have htp := hi.tp
       have hbd := hi.bounded
       cases s with
-      | mk bufs off size cursor total splits eof exc low high lowChunks highChunks waiter parked fut connected
+      | mk bufs off size cursor total splits eof exc low high lowChunks highChunks recheck waiter parked fut connected
            paused tpaused evs fed taken bounds delivered lost =>
       simp only at hsp hfp htp hbd hpos hne
       subst hsp
@@ -232,9 +232,11 @@ theorem disconnect_inv {s : S} (hi : Inv s) : Inv { s with connected := false } 
 
 theorem evs_inv {s : S} (hi : Inv s) (ev : List Ev) : Inv { s with evs := ev } := { hi with }
 
-theorem init_inv (limit : Nat) : Inv (init limit) := by
-  constructor <;> simp [init, rest, nsplits, Gen.C08.highMul, Gen.C08.chunkFloor, Gen.C08.lowDiv]
+theorem initF_inv (f : Bool) (limit : Nat) : Inv (initF f limit) := by
+  constructor <;> simp [initF, rest, nsplits, Gen.C08.highMul, Gen.C08.chunkFloor, Gen.C08.lowDiv]
   omega
+
+theorem init_inv (limit : Nat) : Inv (init limit) := initF_inv _ limit
 
 /-! ### entry points of the consumer coroutines -/
 
@@ -254,18 +256,21 @@ theorem startRead_post {s : S} (hi : Inv s) (hp : s.parked = none) (n : Option N
   unfold startRead
   split
   · exact post_raise hp _ _
-  · split
+  · rename_i hexc
+    have hx : s.recheck = true → s.exc = none := fun _ => hexc
+    split
     · exact ⟨⟨[], Reach.refl s, by intro _; simp [outBytes, pendAcc, hp]⟩, by intro _; exact hp, (by intro h; cases h), accok_of_none hp⟩
     · rename_i n _
-      exact post_setChunk n (contRead_post (setChunk_inv hi n) (by rw [setChunk_parked]; exact hp) n it)
-    · exact post_setChunk _ (contReadAll_post _ [] it (setChunk_inv hi _) (by rw [setChunk_parked]; exact hp))
+      exact post_setChunk n (contRead_post (setChunk_inv hi n) (by rw [setChunk_parked]; exact hp) (hx_setChunk n hx) n it)
+    · exact post_setChunk _ (contReadAll_post _ [] it (setChunk_inv hi _) (by rw [setChunk_parked]; exact hp) (hx_setChunk _ hx))
 
 theorem startReadAny_post {s : S} (hi : Inv s) (hp : s.parked = none) (it : Bool) :
     Post s [] (startReadAny s it) := by
   unfold startReadAny
   split
   · exact post_raise hp _ _
-  · exact contReadAny_post hi hp it
+  · rename_i hexc
+    exact contReadAny_post hi hp (fun _ => hexc) it
 
 theorem startReadUntil_post {s : S} (hi : Inv s) (hp : s.parked = none) (sep : Bytes) (m : Nat) (it : Bool) :
     Post s [] (startReadUntil s sep m it) := by
@@ -274,7 +279,8 @@ theorem startReadUntil_post {s : S} (hi : Inv s) (hp : s.parked = none) (sep : B
   · exact ⟨⟨[], Reach.refl s, by intro _; simp [outBytes, pendAcc, hp]⟩, by intro _; exact hp, (by intro h; cases h), accok_of_none hp⟩
   · split
     · exact post_raise hp _ _
-    · exact contReadUntil_post hi hp sep _ [] it
+    · rename_i hexc
+      exact contReadUntil_post hi hp (fun _ => hexc) sep _ [] it
 
 theorem startReadExactly_post {s : S} (hi : Inv s) (hp : s.parked = none) (n : Nat) :
     Post s [] (startReadExactly s n) := by
@@ -283,7 +289,9 @@ theorem startReadExactly_post {s : S} (hi : Inv s) (hp : s.parked = none) (n : N
   · exact post_raise hp _ _
   · split
     · exact ⟨⟨[], Reach.refl s, by intro _; simp [outBytes, pendAcc, hp]⟩, by intro _; exact hp, (by intro h; cases h), accok_of_none hp⟩
-    · exact post_setChunk n (contReadExactly_post _ n [] (setChunk_inv hi n) (by rw [setChunk_parked]; exact hp))
+    · rename_i hexc _
+      exact post_setChunk n (contReadExactly_post _ n [] (setChunk_inv hi n) (by rw [setChunk_parked]; exact hp)
+        (hx_setChunk n (fun _ => hexc)))
 
 theorem resume_post {s : S} (hi : Inv s) (p : Pend) (hw : s.waiter = false) (hpk : s.parked = some p)
     (ha : AccOk s) : Post s p.acc (resume s p) := by
@@ -299,15 +307,23 @@ theorem resume_post {s : S} (hi : Inv s) (p : Pend) (hw : s.waiter = false) (hpk
   · rename_i h; exact absurd h hfp
   · exact post_raise rfl _ _
   · split
+    · exact post_raise rfl _ _
+    rename_i hnone
+    have hx : ({ s with parked := none } : S).recheck = true → ({ s with parked := none } : S).exc = none := by
+      intro hr
+      simp only [] at hr hnone
+      rw [hr] at hnone
+      simpa using hnone
+    split
     · rename_i n hk
       have h0 : p.acc = [] := ha p hpk (by rw [hk]; rfl)
-      rw [h0]; exact contRead_post hi1 rfl n p.iter
+      rw [h0]; exact contRead_post hi1 rfl hx n p.iter
     · rename_i hk
       have h0 : p.acc = [] := ha p hpk (by rw [hk]; rfl)
-      rw [h0]; exact contReadAny_post hi1 rfl p.iter
-    · exact contReadAll_post _ p.acc p.iter hi1 rfl
-    · exact contReadUntil_post hi1 rfl _ _ p.acc p.iter
-    · exact contReadExactly_post _ _ p.acc hi1 rfl
+      rw [h0]; exact contReadAny_post hi1 rfl hx p.iter
+    · exact contReadAll_post _ p.acc p.iter hi1 rfl hx
+    · exact contReadUntil_post hi1 rfl hx _ _ p.acc p.iter
+    · exact contReadExactly_post _ _ p.acc hi1 rfl hx
     · rename_i hk
       have h0 : p.acc = [] := ha p hpk (by rw [hk]; rfl)
       rw [h0]; exact contReadChunk_post hi1 rfl p.iter
@@ -387,6 +403,48 @@ theorem setChunk_pinv {s : S} (hp : PInv s) (n : Nat) : PInv (setChunk s n) := b
   · rename_i h; exact ⟨by show 0 < n; omega, hp.paused_nonempty⟩
   · exact hp
 
+/-! ### producer operations keep `XInv` -/
+
+theorem feed_xinv {s : S} (hx : XInv s) (d : Bytes) : XInv (feed s d).1 := by
+  unfold feed wake pauseReading
+  split
+  · exact hx
+  · split
+    · exact hx
+    · simp only []
+      split <;> split <;> (try split) <;> intro h1 h2 <;> first | rfl | exact hx h1 h2
+
+theorem beginChunk_xinv {s : S} (hx : XInv s) : XInv (beginChunk s).1 := by
+  unfold beginChunk
+  split
+  · exact hx
+  · split <;> exact hx
+
+theorem endChunk_xinv {s : S} (hx : XInv s) : XInv (endChunk s).1 := by
+  unfold endChunk wake pauseReading
+  split
+  · exact hx
+  · simp only []
+    split
+    · exact hx
+    · split <;> split <;> (try split) <;> intro h1 h2 <;> first | rfl | exact hx h1 h2
+
+theorem feedEof_xinv {s : S} (hx : XInv s) : XInv (feedEof s).1 := by
+  unfold feedEof wake resumeReading
+  simp only []
+  split <;> split <;> intro h1 h2 <;> first | rfl | exact hx h1 h2
+
+theorem setExc_xinv (s : S) (e : Nat) : XInv s → XInv (setExc s e).1 := by
+  intro hx
+  unfold setExc wakeExc
+  simp only []
+  split
+  · intro _ _; rfl
+  · rename_i hw; intro _ _; simpa using hw
+
+theorem setChunk_xinv {s : S} (hx : XInv s) (n : Nat) : XInv (setChunk s n) := by
+  unfold setChunk; split <;> exact hx
+
 /-! ### the step-level invariant -/
 
 structure SInv (s : S) : Prop where
@@ -401,6 +459,8 @@ structure CoreSpec (s : S) (r : S × Out) : Prop where
   delivered : r.1.delivered = s.delivered
   deliv : r.1.lost = false → s.delivered ++ outBytes r.2 ++ pendAcc r.1 = r.1.taken
   pinv : PInv s → PInv r.1
+  xinv : XInv s → XInv r.1
+  recheck : r.1.recheck = s.recheck
   blocked : r.2 = .blocked → r.1.waiter = true
 
 theorem iterOut_blocked (it : Bool) (o : Out) (h : iterOut it o = .blocked) : o = .blocked := by
@@ -420,7 +480,7 @@ theorem post_core {s : S} (hs : SInv s) {acc : Bytes} {r : S × Out} (hacc : pen
   obtain ⟨⟨d, hr, hd⟩, -, hbl, ha⟩ := h
   have hf := reach_frame hr
   have ht := reach_taken hs.inv hr
-  refine ⟨reach_inv hs.inv hr, ha, hf.delivered, ?_, fun hp => pinv_reach hs.inv hp hr,
+  refine ⟨reach_inv hs.inv hr, ha, hf.delivered, ?_, fun hp => pinv_reach hs.inv hp hr, fun hx => xinv_reach hx hr, hf.recheck,
     fun hb => hbl (iterOut_blocked it _ hb)⟩
   intro hl
   have hl0 : s.lost = false := by
@@ -438,12 +498,13 @@ structure ProdFrame (s : S) (r : S × Out) : Prop where
   taken : r.1.taken = s.taken
   delivered : r.1.delivered = s.delivered
   lost : r.1.lost = s.lost
+  recheck : r.1.recheck = s.recheck
   out : outBytes r.2 = []
   nb : r.2 ≠ .blocked
 
 theorem prod_core {s : S} (hs : SInv s) {r : S × Out} (hi : Inv r.1) (h : ProdFrame s r)
-    (hpi : PInv s → PInv r.1) : CoreSpec s r := by
-  refine ⟨hi, ?_, h.delivered, ?_, hpi, fun hb => absurd hb h.nb⟩
+    (hpi : PInv s → PInv r.1) (hxi : XInv s → XInv r.1) : CoreSpec s r := by
+  refine ⟨hi, ?_, h.delivered, ?_, hpi, hxi, h.recheck, fun hb => absurd hb h.nb⟩
   · intro p hp; rw [h.parked] at hp; exact hs.accok p hp
   · intro hl
     rw [h.lost] at hl
@@ -454,43 +515,43 @@ theorem prod_core {s : S} (hs : SInv s) {r : S × Out} (hi : Inv r.1) (h : ProdF
 theorem feed_frame (s : S) (d : Bytes) : ProdFrame s (feed s d) := by
   unfold feed wake pauseReading
   split
-  · exact ⟨rfl, rfl, rfl, rfl, rfl, by intro h; cases h⟩
+  · exact ⟨rfl, rfl, rfl, rfl, rfl, rfl, by intro h; cases h⟩
   · split
-    · exact ⟨rfl, rfl, rfl, rfl, rfl, by intro h; cases h⟩
+    · exact ⟨rfl, rfl, rfl, rfl, rfl, rfl, by intro h; cases h⟩
     · simp only []
-      split <;> split <;> (try split) <;> exact ⟨rfl, rfl, rfl, rfl, rfl, by intro h; cases h⟩
+      split <;> split <;> (try split) <;> exact ⟨rfl, rfl, rfl, rfl, rfl, rfl, by intro h; cases h⟩
 
 theorem beginChunk_frame (s : S) : ProdFrame s (beginChunk s) := by
   unfold beginChunk
   split
-  · exact ⟨rfl, rfl, rfl, rfl, rfl, by intro h; cases h⟩
-  · split <;> exact ⟨rfl, rfl, rfl, rfl, rfl, by intro h; cases h⟩
+  · exact ⟨rfl, rfl, rfl, rfl, rfl, rfl, by intro h; cases h⟩
+  · split <;> exact ⟨rfl, rfl, rfl, rfl, rfl, rfl, by intro h; cases h⟩
 
 theorem endChunk_frame (s : S) : ProdFrame s (endChunk s) := by
   unfold endChunk wake pauseReading
   split
-  · exact ⟨rfl, rfl, rfl, rfl, rfl, by intro h; cases h⟩
+  · exact ⟨rfl, rfl, rfl, rfl, rfl, rfl, by intro h; cases h⟩
   · simp only []
     split
-    · exact ⟨rfl, rfl, rfl, rfl, rfl, by intro h; cases h⟩
-    · split <;> split <;> (try split) <;> exact ⟨rfl, rfl, rfl, rfl, rfl, by intro h; cases h⟩
+    · exact ⟨rfl, rfl, rfl, rfl, rfl, rfl, by intro h; cases h⟩
+    · split <;> split <;> (try split) <;> exact ⟨rfl, rfl, rfl, rfl, rfl, rfl, by intro h; cases h⟩
 
 theorem feedEof_frame (s : S) : ProdFrame s (feedEof s) := by
   unfold feedEof wake resumeReading
   simp only []
-  split <;> split <;> exact ⟨rfl, rfl, rfl, rfl, rfl, by intro h; cases h⟩
+  split <;> split <;> exact ⟨rfl, rfl, rfl, rfl, rfl, rfl, by intro h; cases h⟩
 
 theorem setExc_frame (s : S) (e : Nat) : ProdFrame s (setExc s e) := by
   unfold setExc wakeExc
   simp only []
-  split <;> exact ⟨rfl, rfl, rfl, rfl, rfl, by intro h; cases h⟩
+  split <;> exact ⟨rfl, rfl, rfl, rfl, rfl, rfl, by intro h; cases h⟩
 
 theorem setChunk_frame (s : S) (n : Nat) : ProdFrame s (setChunk s n, Out.ok) := by
   unfold setChunk
-  split <;> exact ⟨rfl, rfl, rfl, rfl, rfl, by intro h; cases h⟩
+  split <;> exact ⟨rfl, rfl, rfl, rfl, rfl, rfl, by intro h; cases h⟩
 
 theorem same_core {s : S} (hs : SInv s) (o : Out) (ho : outBytes o = []) (hb : o ≠ .blocked) : CoreSpec s (s, o) :=
-  prod_core hs hs.inv ⟨rfl, rfl, rfl, rfl, ho, hb⟩ id
+  prod_core hs hs.inv ⟨rfl, rfl, rfl, rfl, rfl, ho, hb⟩ id id
 
 theorem consumer_core {s : S} (hs : SInv s) (it : Bool) (f : S → S × Out)
     (hf : s.parked = none → Post s [] (f s)) : CoreSpec s (consumer s it f) := by
@@ -503,13 +564,13 @@ theorem consumer_core {s : S} (hs : SInv s) (it : Bool) (f : S → S × Out)
 
 theorem core_spec {s : S} (hs : SInv s) (op : Op) : CoreSpec s (core s op) := by
   cases op with
-  | feed d => exact prod_core hs (feed_inv hs.inv d) (feed_frame s d) (fun hp => feed_pinv hp d)
-  | beginChunk => exact prod_core hs (beginChunk_inv hs.inv) (beginChunk_frame s) beginChunk_pinv
-  | endChunk => exact prod_core hs (endChunk_inv hs.inv) (endChunk_frame s) (endChunk_pinv hs.inv)
-  | feedEof => exact prod_core hs (feedEof_inv hs.inv) (feedEof_frame s) feedEof_pinv
-  | setExc e => exact prod_core hs (setExc_inv hs.inv e) (setExc_frame s e) (fun hp => setExc_pinv hp e)
-  | disconnect => exact prod_core hs (disconnect_inv hs.inv) ⟨rfl, rfl, rfl, rfl, rfl, by intro h; cases h⟩ (fun hp => ⟨hp.lowpos, hp.paused_nonempty⟩)
-  | setChunkSize n => exact prod_core hs (setChunk_inv hs.inv n) (setChunk_frame s n) (fun hp => setChunk_pinv hp n)
+  | feed d => exact prod_core hs (feed_inv hs.inv d) (feed_frame s d) (fun hp => feed_pinv hp d) (fun hx => feed_xinv hx d)
+  | beginChunk => exact prod_core hs (beginChunk_inv hs.inv) (beginChunk_frame s) beginChunk_pinv beginChunk_xinv
+  | endChunk => exact prod_core hs (endChunk_inv hs.inv) (endChunk_frame s) (endChunk_pinv hs.inv) endChunk_xinv
+  | feedEof => exact prod_core hs (feedEof_inv hs.inv) (feedEof_frame s) feedEof_pinv feedEof_xinv
+  | setExc e => exact prod_core hs (setExc_inv hs.inv e) (setExc_frame s e) (fun hp => setExc_pinv hp e) (setExc_xinv s e)
+  | disconnect => exact prod_core hs (disconnect_inv hs.inv) ⟨rfl, rfl, rfl, rfl, rfl, rfl, by intro h; cases h⟩ (fun hp => ⟨hp.lowpos, hp.paused_nonempty⟩) (fun hx => hx)
+  | setChunkSize n => exact prod_core hs (setChunk_inv hs.inv n) (setChunk_frame s n) (fun hp => setChunk_pinv hp n) (fun hx => setChunk_xinv hx n)
   | read n it =>
     refine consumer_core hs it (fun s => startRead (if it = true then setChunk s (n.getD 0) else s) n it) (fun hp => ?_)
     split
@@ -536,7 +597,7 @@ theorem core_spec {s : S} (hs : SInv s) (op : Op) : CoreSpec s (core s op) := by
         split
         · -- raise with nothing taken: only `lost` is rewritten to itself
           unfold raise
-          exact prod_core hs { hs.inv with } ⟨rfl, rfl, rfl, by simp, rfl, by intro h; cases h⟩ (fun hp => ⟨hp.lowpos, hp.paused_nonempty⟩)
+          exact prod_core hs { hs.inv with } ⟨rfl, rfl, rfl, by simp, rfl, rfl, by intro h; cases h⟩ (fun hp => ⟨hp.lowpos, hp.paused_nonempty⟩) (fun hx => hx)
         · simp only [hw, if_true]
           exact same_core hs _ rfl (by intro h; cases h)
   | wakeup =>
@@ -569,6 +630,24 @@ theorem step_pinv {s : S} (hs : SInv s) (hp : PInv s) (op : Op) : PInv (step s o
   have := hc.pinv ⟨hp.lowpos, hp.paused_nonempty⟩
   exact ⟨this.lowpos, this.paused_nonempty⟩
 
+theorem step_xinv {s : S} (hs : SInv s) (hx : XInv s) (op : Op) : XInv (step s op).1 := by
+  have hs0 : SInv { s with evs := [] } := ⟨evs_inv hs.inv [], hs.accok, hs.deliv⟩
+  exact (core_spec hs0 op).xinv hx
+
+theorem step_recheck {s : S} (hs : SInv s) (op : Op) : (step s op).1.recheck = s.recheck := by
+  have hs0 : SInv { s with evs := [] } := ⟨evs_inv hs.inv [], hs.accok, hs.deliv⟩
+  exact (core_spec hs0 op).recheck
+
+theorem exec_recheck {s : S} (hs : SInv s) (ops : List Op) : (exec s ops).recheck = s.recheck := by
+  induction ops generalizing s with
+  | nil => rfl
+  | cons op ops ih => exact (ih (step_sinv hs op)).trans (step_recheck hs op)
+
+theorem exec_xinv {s : S} (hs : SInv s) (hx : XInv s) (ops : List Op) : XInv (exec s ops) := by
+  induction ops generalizing s with
+  | nil => exact hx
+  | cons op ops ih => exact ih (step_sinv hs op) (step_xinv hs hx op)
+
 theorem exec_pinv {s : S} (hs : SInv s) (hp : PInv s) (ops : List Op) : PInv (exec s ops) := by
   induction ops generalizing s with
   | nil => exact hp
@@ -579,8 +658,10 @@ theorem step_blocked {s : S} (hs : SInv s) (op : Op) (h : (step s op).2 = .block
   have hs0 : SInv { s with evs := [] } := ⟨evs_inv hs.inv [], hs.accok, hs.deliv⟩
   exact (core_spec hs0 op).blocked h
 
-theorem init_sinv (limit : Nat) : SInv (init limit) :=
-  ⟨init_inv limit, accok_of_none rfl, by intro _; rfl⟩
+theorem initF_sinv (f : Bool) (limit : Nat) : SInv (initF f limit) :=
+  ⟨initF_inv f limit, accok_of_none rfl, by intro _; rfl⟩
+
+theorem init_sinv (limit : Nat) : SInv (init limit) := initF_sinv _ limit
 
 theorem exec_sinv {s : S} (hs : SInv s) (ops : List Op) : SInv (exec s ops) := by
   induction ops generalizing s with
